@@ -147,13 +147,13 @@ def dispatch_section(ctx, work):
         raise tlc.MachineryError("deviation switch Fallback=anyError did not violate the oracle")
     ctx.notes["switch_anyError_violates"] = bad["invariant_violated"]
     behs = []
-    for cfgname, n in (("Gen_Dispatch", ctx.pick(150, 2500)), ("Gen_Dispatch_long", ctx.pick(40, 1200))):
+    for cfgname, n in (("Gen_Dispatch", ctx.pick(150, 2000)), ("Gen_Dispatch_long", ctx.pick(40, 800))):
         recs = ctx.export("Gen_Dispatch", cfgname, simulate="num=%d" % n,
                           extra=["-depth", "16", "-seed", str(ctx.seed + 23)], workers=1)
         behs += [json.loads(r[1]) for r in recs]
     ctx.notes["dispatch_behaviours_from_tlc"] = len(behs)
     hists = [b["ops"] for b in behs] + dd.directed_histories()
-    hists += [dd.random_history(ctx.rng, ctx.rng.randint(5, ctx.pick(12, 24))) for _ in range(ctx.pick(150, 4000))]
+    hists += [dd.random_history(ctx.rng, ctx.rng.randint(5, ctx.pick(12, 24))) for _ in range(ctx.pick(150, 2500))]
     srv = http_server.Server(work)
     dcases = []
     try:
